@@ -228,6 +228,12 @@ def verify_function(eng, con, only_scenarios=None):
                 meta = {"trace": list(s2.trace), "kind": kind}
 
                 def add(name, okind, pc, goal):
+                    if callable(goal):
+                        try:
+                            goal = goal()
+                        except Unsupported as e:    # the clause cannot be evaluated on this path
+                            rep.unsupported = f"{sc.name}: clause {name}: {e}"
+                            return
                     if goal is True:
                         goal = z3.BoolVal(True)
                     if goal is False:
@@ -239,9 +245,9 @@ def verify_function(eng, con, only_scenarios=None):
                     add(oname, "callsite" if oname.startswith("pre@") else "loop", opc, goal)
                 if kind == "ret":
                     for name, fn in con.posts:
-                        add(f"post.{name}", "post", list(s2.pc), fn(eng, st0, s2, a, v))
+                        add(f"post.{name}", "post", list(s2.pc), lambda fn=fn: fn(eng, st0, s2, a, v))
                     for name, fn in con.must_raise:
-                        add(f"rejects.{name}", "post", list(s2.pc), _not(fn(eng, st0, a)))
+                        add(f"rejects.{name}", "post", list(s2.pc), lambda fn=fn: _not(fn(eng, st0, a)))
                 elif kind == "exc":
                     E = v.cls
                     allowed = [X for X in con.raises if issubclass(E, X)] if not (E is Exception and v.note == "any") else []
@@ -253,9 +259,9 @@ def verify_function(eng, con, only_scenarios=None):
                         for X in allowed:
                             rs = con.reasons.get(X)
                             if rs is not None:
-                                add(f"reason.{X.__name__}", "raises", list(s2.pc), rs(eng, st0, a))
+                                add(f"reason.{X.__name__}", "raises", list(s2.pc), lambda rs=rs: rs(eng, st0, a))
                         for name, fn in con.xposts:
-                            add(f"xpost.{name}", "xpost", list(s2.pc), fn(eng, st0, s2, a, E))
+                            add(f"xpost.{name}", "xpost", list(s2.pc), lambda fn=fn: fn(eng, st0, s2, a, E))
     finally:
         if own is not None:
             eng.contracts[con.key] = own
